@@ -12,7 +12,12 @@ THEOREM_NAMES = ['run_fuel_mono', 'input_rt', 'output_fluor_rt', 'input_fluor_re
                  'stmtText_input_wire_f', 'stmtText_output_fluor', 'stmtText_output_wire', 'stmtText_seesaw', 'stmtText_inputfanout',
                  'stmtText_seesawOR', 'stmtText_seesawAND', 'stmtText_wireconc', 'stmtText_wireconc_decimal', 'stmtText_gateO_conc',
                  'stmtText_gateI_conc', 'stmtText_thO_conc', 'ssw_document_layout_rt', 'ssw_document_layout_open_rt', 'ssw_document_tabs_rt', 'stmtTextT_reporter', 'stmtTextT_input',
-                 'ssw_accepts_only_valid', 'input_binds_wire', 'conc_value_unsigned', 'reporter_arity', 'negative_concentration_rejected_general']
+                 'ssw_accepts_only_valid', 'input_binds_wire', 'conc_value_unsigned', 'reporter_arity', 'negative_concentration_rejected_general',
+                 # every statement form, separators at every token boundary, general rejections
+                 'input_layout', 'output_layout', 'seesaw_layout', 'conc_layout', 'reporter_layout', 'inputfanout_layout', 'seesawOR_layout',
+                 'seesawAND_layout', 'kind_input', 'kind_output', 'kind_seesaw', 'kind_conc', 'kind_reporter', 'kind_inputfanout',
+                 'kind_seesawOR', 'kind_seesawAND', 'conc_thI_gen_rt', 'conc_wire_gen_rt', 'seesaw_f_rt', 'input_gen_rt',
+                 'wrong_arity_rejected', 'reporter_one_argument_rejected', 'negative_concentration_rejected_layout']
 THEOREMS = ['Dsd.C19.' + t for t in THEOREM_NAMES]
 ASSUMPTIONS = [
     'pyparsing 3.3.2 is modelled by a hand-written interpreter (Model/Pyparsing.lean); the seesaw grammar term (Gen/Grammars.lean: '
@@ -33,8 +38,12 @@ MANIFEST = {
             'number of blank / comment-only lines before, between and after the statements, unterminated last line). ssw_document_tabs_rt (blank/tab separators; instances for reporter and input). REJECTIONS in general form: '
             'ssw_accepts_only_valid (whatever text the parser model accepts, every returned statement has one of the valid shapes '
             'SswValid: right arity and argument kinds), hence input_binds_wire (an INPUT is never bound to a fluorophore), '
-            'reporter_arity, conc_value_unsigned, negative_concentration_rejected_general. Blanks at the '
-            'remaining token boundaries, tabs in the other statement kinds, scientific concentrations, thI and files are NOT theorems: they are decided on the real parser by a reference renderer, '
+            'reporter_arity, conc_value_unsigned, negative_concentration_rejected_general. COMPLETE: for every statement kind a summary '
+            'theorem *_layout (blank/tab separators at EVERY token boundary of the statement, brace lists of any length, names as '
+            'numbers or identifiers, concentrations in integer / decimal / scientific form for all five argument forms incl. thI, f in '
+            'seesaw output lists), and general rejections at document level: wrong_arity_rejected (reporter with 1 or 3 arguments, '
+            'seesaw without its second list, inputfanout without number / list - with any separators, after any well-formed '
+            'statements, before any text) and negative_concentration_rejected_layout. Indented statements, scientific concentrations, thI and files are NOT theorems: they are decided on the real parser by a reference renderer, '
             'and the model is compared with pyparsing on the same texts, the systematic negative family and random mutations.',
     'note': 'pyparsing semantics is modelled by hand and tied by differential testing only.',
     'technique': 'Lean 4 symbolic execution of a pyparsing interpreter over the grammar regenerated from source (induction on list length); correspondence check; reference renderer oracle',
